@@ -6,11 +6,12 @@ NOTES = ('Technique family: contract-based deductive verification of the real co
 
 CHECKS = {
     'C01': {
-        'text': 'Verus proves the real encode_frame equal to the RFC 23 frame image (flags, 255/256 size boundary, 8 octet big-endian size, body) for every usize length and both MORE values, '
-                'and the real decoder equal to an RFC-written resumable decoder specification; the greeting serialiser is proved octet for octet by a loop-free Kani harness over its full domain. '
+        'text': 'Verus proves, on the real text: encode_frame equals the RFC 23 frame image (flags, 255/256 size boundary, 8 octet big-endian size, body) for every usize length and both MORE values; Encoder::encode writes exactly rfc_msg(frames) for every message of >= 1 frames; '
+                'the decoder equals an RFC-written resumable decoder specification, and that specification parses rfc_msg(frames) back to exactly [frames] (lemma); the READY serialiser emits one command frame with an exact size field carrying every property once, and the READY parser builds exactly the map the RFC grammar reads; '
+                'the greeting serialiser is proved octet for octet by a loop-free Kani harness over its full domain. '
                 'Proof is the right level because the property quantifies over all messages and lengths, which no grid of tests covers.',
         'design_ref': 'DESIGN.md 4 (C01), 2, 3',
-        'note': 'Assumed: specs of the bytes crate; ZmqCommand::try_from contract (Kani bounded for panic-freedom only); the message-level encode loop (enumerate) is a bounded Kani component; READY serialiser bounded. 64-bit target.',
+        'note': 'Assumed: specs of the bytes crate (cross-checked by bounded Kani bytes_spec_* harnesses in the thorough tier); an assumed model of std enumerate over a deque iterator (stand-in Iter/Enumerate); A-REGION-2 (the b"READY" slice-pattern match); String-by-octets and hash-key axioms. 64-bit target.',
         'technique': 'Verus contracts on extracted real functions vs RFC spec functions; Kani complete harness for the greeting',
     },
     'C02': {
@@ -32,7 +33,7 @@ CHECKS = {
         'text': 'Verus proves, on the real text of ReqSocket/RepSocket send+recv and ZmqMessage: REQ writes exactly [empty]+payload and accepts a reply iff it has >=2 frames with an empty first frame, returning the rest; REP returns exactly the frames after the first empty delimiter (never zero frames), stores the envelope up to and including it, and writes envelope+reply. '
                 'All postconditions are over the whole frame sequence, so any payload content (including empty frames) is covered.',
         'design_ref': 'DESIGN.md 4 (C07)',
-        'note': 'One assumed region (A-REGION-1: the enumerate loop that finds the delimiter). Stand-ins for scc/SegQueue/FairQueue/Framed*; sequential scope (Arc as Box).',
+        'note': 'The delimiter-search loop is verified against an assumed model of std enumerate (stand-in iterator types); ZmqMessage::iter/prepend are stubs in the reqrep unit (verified in the message unit). Stand-ins for scc/SegQueue/FairQueue/Framed*; sequential scope (Arc as Box).',
         'technique': 'Verus contracts on async skeletons (await dropped) over Seq views of ZmqMessage and ghost wire logs',
     },
     'C08': {
